@@ -12,6 +12,7 @@ KINDS = [0, 1, 1, 3, 7, 1059, 9999, 10000, 19999, 20000, 29999, 30000, 30000, 39
 TIMES = [0, 1, 100, 150, 200, 1000, U64MAX]
 P182 = b'p' * 182
 DVALS = [None, b'', b'x', b'x\x00', b'y', P182, P182 + b'A', P182 + b'B', b'q' * 300]
+RECIPIENT = ID(0xd4)      # a key that authors nothing: it only receives gift wraps (and is vanished)
 IDPOOL = [ID(i) for i in range(1, 30)] + [ID(0xff), ID(0xfe), ID(0), bytes(31) + b'\x01', bytes(31) + b'\x02', b'\xff' * 31 + b'\x00']
 
 
@@ -46,6 +47,16 @@ class HistGen:
         self.events = []      # every event ever generated (submitted or not)
         self.used_ids = set()
         self.tables = rng.choice([[], [], ['t1'], ['t1', 't2']])
+        # an "address family": one author and kind, and a set of confusable identifiers; most
+        # stores of a C09 history stay inside it so that neighbouring addresses really collide
+        self.family = None
+        if focus in ('C09',) or rng.random() < 0.25:
+            kind = rng.choice([30000, 30000, 39999, 30023, 10000, 0, 3, 19999])
+            dsets = [[b'x', b'x\x00', b'x\x00\x00', b'', b'\x00', b'y'],
+                     [P182, P182 + b'A', P182 + b'B', P182[:181], P182[:181] + b'\x00'],
+                     [b'list', b'list\x00', b'lis', b'list2'],
+                     [b'q' * 300, b'q' * 300 + b'1', b'q' * 182, b'q' * 183]]
+            self.family = dict(pk=rng.choice(AUTHORS), kind=kind, ds=rng.choice(dsets))
 
     def fresh_id(self):
         rng = self.rng
@@ -82,7 +93,7 @@ class HistGen:
                   tags=self.rand_tags(kind) if tags is None else tags,
                   content=rng.choice([b'', b'hi', b'x' * rng.choice([1, 7, 300, 1500, 2500, 5000])]) if content is None else content)
         if kind == 1059 and rng.random() < 0.8:
-            who = rng.choice(AUTHORS).hex().encode()
+            who = rng.choice(AUTHORS + [RECIPIENT, RECIPIENT]).hex().encode()
             shape = rng.choice(['first', 'later', 'nonfirst', 'upper'])
             if shape == 'first':
                 ev['tags'].insert(0, [b'p', who])
@@ -94,6 +105,31 @@ class HistGen:
                 ev['tags'].append([b'p', who.upper()])
         self.events.append(ev)
         return ev
+
+    def family_event(self):
+        """an event at (or next to) one of the family's addresses, in every timestamp order"""
+        rng = self.rng
+        fam = self.family
+        kind = fam['kind']
+        if rng.random() < 0.1:
+            kind = rng.choice([max(0, kind - 1), min(65535, kind + 1), 30000, 10000])
+        pk = fam['pk'] if rng.random() < 0.9 else rng.choice(AUTHORS)
+        d = rng.choice(fam['ds'])
+        shape = rng.choice(['plain'] * 6 + ['second_d', 'second_d', 'd_no_value_first', 'extra_string', 'other_first'])
+        if shape == 'plain':
+            tags = [[b'd', d]]
+        elif shape == 'second_d':
+            tags = [[b'd', d], [b'd', rng.choice(fam['ds'])]]
+        elif shape == 'd_no_value_first':
+            tags = [[b'd'], [b'd', d]]
+        elif shape == 'extra_string':
+            tags = [[b'd', d, b'more']]
+        else:
+            tags = [[b't', b'a'], [b'd', d]]
+        if rng.random() < 0.15:
+            tags = []
+        return self.new_event(kind=kind, pk=pk, tags=tags, t=rng.choice([100, 100, 150, 200, 200, 1000, 0]),
+                              content=rng.choice([b'', b'v1', b'v2']))
 
     def deletion(self, abs_, pk=None):
         """a kind-5 request with 0-5 e/a tags mixing own/foreign/absent/malformed targets"""
@@ -145,7 +181,7 @@ class HistGen:
     def next_op(self, abs_):
         rng = self.rng
         f = self.focus
-        weights = {'store': 50, 'delete': 12, 'resubmit': 12, 'remove': 6, 'vanish': 2, 'reopen': 3, 'rebuild': 2, 'xput': 2, 'neighbour': 8}
+        weights = {'store': 50, 'delete': 12, 'resubmit': 12, 'remove': 6, 'vanish': 2, 'reopen': 3, 'rebuild': 2, 'xput': 2, 'neighbour': 8, 'giftwrap': 2}
         if f == 'C09':
             weights.update(neighbour=45, store=20, resubmit=15)
         if f in ('C10', 'C11', 'C12'):
@@ -153,13 +189,17 @@ class HistGen:
         if f == 'C16':
             weights.update(reopen=10, rebuild=10, xput=6, delete=20)
         if f == 'C18':
-            weights.update(remove=18, vanish=8, resubmit=15)
+            weights.update(remove=18, vanish=10, resubmit=15, giftwrap=14)
         if f == 'C13':
             weights.update(vanish=10, remove=12, delete=14, rebuild=0, reopen=0, xput=0)
         if f == 'C04':
             weights.update(store=60, reopen=6)
         ops = list(weights)
         op = rng.choices(ops, [weights[o] for o in ops])[0]
+        if self.family and op in ('store', 'neighbour') and rng.random() < (0.8 if f == 'C09' else 0.5):
+            return {'op': 'store', 'ev': self.family_event()}
+        if op == 'giftwrap':
+            return {'op': 'store', 'ev': self.new_event(kind=1059, pk=ID(rng.choice([0xe1, 0xe2, 0xe3])))}
         if op == 'store' or not self.events:
             return {'op': 'store', 'ev': self.new_event()}
         if op == 'neighbour':
@@ -178,7 +218,7 @@ class HistGen:
         if op == 'remove':
             return {'op': 'remove', 'id': rng.choice(self.events)['id'] if rng.random() < 0.85 else rng.choice(IDPOOL)}
         if op == 'vanish':
-            return {'op': 'vanish', 'pk': rng.choice(AUTHORS + [ID(0x77)])}
+            return {'op': 'vanish', 'pk': rng.choice(AUTHORS + [RECIPIENT, RECIPIENT, ID(0x77)])}
         if op == 'xput' and self.tables:
             return {'op': 'xput', 'table': rng.choice(self.tables), 'key': rng.choice([b'k', b'k2', b'\x00', b'zz' * 20]), 'val': rng.choice([b'', b'v', b'w' * 100])}
         if op == 'rebuild':
@@ -412,7 +452,11 @@ def named_filter(f):
 
 
 def judge(c, hists, oracles, relevant=None):
-    """correspondence on every request + the direct oracles named in `oracles`"""
+    """correspondence + the direct oracles named in `oracles`.
+    `relevant`: the request kinds whose correspondence this property depends on (None = all).
+    Queries are compared with the model only at steps where implementation and model agree on
+    which events are retrievable, and judged (ValidAnswer) against the implementation's own
+    retrievable set, so that a defect in what is *stored* is not reported as a query defect."""
     for hi, h in enumerate(hists):
         w, m, lines = h['w'], h['m'], h['lines']
         def replay(upto):
@@ -432,9 +476,12 @@ def judge(c, hists, oracles, relevant=None):
                 bad('oracle', '%s did not return: %s' % (op['op'], rw[:80]), li)
                 break
             # ---- correspondence
-            if rw != rm:
+            if rw != rm and (relevant is None or lines[li][:3] in relevant):
                 bad('corr', '%s: impl %s model %s' % (lines[li][:40], rw[:40], rm[:40]), li, found=False)
             cur = {}
+            same_live = all(strip_now(w[bi]) == m[bi] for (kind, arg, bi) in bat if kind == 'HAS')
+            impl_live = {arg: snap['submitted'][arg] for (kind, arg, bi) in bat
+                         if kind == 'HAS' and w[bi] == '1' and arg in snap['submitted']}
             for (kind, arg, bi) in bat:
                 a, b = strip_now(w[bi]), m[bi]
                 cur[(kind, repr(arg) if kind != 'FND' else bi)] = a
@@ -442,7 +489,9 @@ def judge(c, hists, oracles, relevant=None):
                     bad('oracle', '%s did not return: %s' % (lines[bi][:60], a[:60]), bi)
                     continue
                 if a != b and not (kind == 'OFF' and b == 'unknown'):
-                    if relevant is None or relevant(kind):
+                    if kind == 'FND' and not same_live:
+                        continue
+                    if relevant is None or kind in relevant:
                         bad('corr', '%s: impl %s model %s' % (lines[bi][:50], a[:50], b[:50]), bi, found=False)
             # ---- reply class against the abstract specification
             if 'reply' in oracles and op['op'] == 'store' and rw != pred:
@@ -485,7 +534,7 @@ def judge(c, hists, oracles, relevant=None):
                         bad('oracle', 'two retrievable events at one replaceable address', bi)
                 elif kind == 'STA' and 'counts' in oracles:
                     kv = dict(x.split('=') for x in a.split(' '))
-                    n = len(live)
+                    n = len(impl_live) if 'live' not in oracles else len(live)
                     if not (int(kv['i']) == int(kv['ci']) == int(kv['ac']) == int(kv['akc']) == n):
                         bad('oracle', 'index entry counts %s do not equal the %d retrievable events' % (a[:90], n), bi)
                     if n == 0 and any(int(kv[x]) != 0 for x in ('tc', 'atc', 'ktc')):
@@ -505,15 +554,15 @@ def judge(c, hists, oracles, relevant=None):
                         out = [] if t[1] == '_' else [bytes.fromhex(x) for x in t[1].split(',')]
                         red = t[2] == 'r=1'
                         if named_filter(f):
-                            err = valid_answer(live, f, SCREENS[scr], out, red)
+                            err = valid_answer(impl_live, f, SCREENS[scr], out, red)
                             if err:
                                 bad('oracle', 'find_events: %s' % err, bi)
                             elif out:
                                 c.nontriv(lines[bi][:300])
                         if why == 'self' and 'selffind' in oracles:
-                            if (who in live) != (who in out):
+                            if (who in impl_live) != (who in out):
                                 bad('oracle', 'event %s is %sretrievable but a filter built from its own fields %s it' % (
-                                    who.hex()[:8], '' if who in live else 'not ', 'misses' if who in live else 'returns'), bi)
+                                    who.hex()[:8], '' if who in impl_live else 'not ', 'misses' if who in impl_live else 'returns'), bi)
                     elif a.startswith('scraper'):
                         if not scrape_refused(f, allow, lim, secs, h['now']):
                             bad('oracle', 'query refused as scraping although the filter names ids/authors/tags or the allowances cover it', bi)
